@@ -1,6 +1,6 @@
 #!/bin/sh
 # Offline build of everything the checks need (warms the Go build cache, incl. cgo sqlite3).
-cd /verif || exit 1
+cd "$(dirname "$0")" || exit 1
 export GOFLAGS=-mod=mod GOPROXY=off GOSUMDB=off GOTOOLCHAIN=local
 mkdir -p bin evidence replays
 go build -tags verif -o bin/vcheck ./cmd/vcheck || exit 1
